@@ -10,6 +10,8 @@ import copy
 import pickle
 import re
 
+import numpy
+
 from sim import lifetimes, observe, worldgen
 from . import common
 
@@ -141,8 +143,10 @@ class BindSim:
             rng.shuffle(order)
             env = [{'kind': 'real', 'name': n} for n in order]
             for _ in range(rng.choice([0, 0, 1, 2, 3])):
-                fk = rng.choice(['import_error', 'attr_error', 'non_class', 'non_convention', 'dup', 'raising_check'])
+                fk = rng.choice(['import_error', 'attr_error', 'non_class', 'non_convention', 'dup', 'raising_check', 'same_name_plugin', 'same_name_plugin'])
                 item = {'kind': fk, 'name': rng.choice(order)}
+                if fk == 'same_name_plugin':
+                    item['syn'] = rng.randrange(4)
                 env.insert(rng.randint(0, len(env)), item)
             if rng.random() < 0.1:
                 drop = rng.choice(order)
@@ -329,6 +333,12 @@ def _bind_lifetime(ctx, dataset_descs, lt):
         elif e['kind'] == 'dup':
             eps.append(_FakeEntryPoint(e['name'] + '_again', value, lambda v=value: load_real(v)))
             c = load_real(value)
+            if c not in model_entry:
+                model_entry.append(c)
+        elif e['kind'] == 'same_name_plugin':
+            # another distribution that calls its entry point like an existing one, but provides another class
+            c = syn[f"syn{e.get('syn', 3)}"]
+            eps.append(_FakeEntryPoint(e['name'], 'thirdparty.plugin:' + c.__name__, lambda c_=c: c_))
             if c not in model_entry:
                 model_entry.append(c)
         elif e['kind'] == 'import_error':
@@ -623,7 +633,17 @@ def _bind_lifetime(ctx, dataset_descs, lt):
                 elif desc and desc['world'] and desc['world']['conv'] in ('cf2d', 'shoc_simple') and not desc['mut']:
                     w_ = desc['world']
                     new = ds.copy()
-                    conv = _CF2(new, latitude=w_['yvar'], longitude=w_['xvar'])
+                    if op.get('alt_coords', True) and not w_.get('coords_as_vars'):
+                        # a second pair of two-dimensional coordinates (as ROMS writes rho and psi points); the user names
+                        # the pair that auto-detection would *not* pick
+                        for src_, alt_ in ((w_['yvar'], 'lat_alt'), (w_['xvar'], 'lon_alt')):
+                            v_ = new[src_].variable
+                            new = new.assign_coords({alt_: (v_.dims, numpy.asarray(v_.values) + 0.001,
+                                                           {a_: b_ for a_, b_ in v_.attrs.items() if a_ != 'bounds'})})
+                        conv = _CF2(new, latitude='lat_alt', longitude='lon_alt')
+                        probe('convention_bound_to_non_default_coordinates')
+                    else:
+                        conv = _CF2(new, latitude=w_['yvar'], longitude=w_['xvar'])
                     conv.bind()
                     probe('convention_constructed_with_arguments')
                 nh = len(datasets)
@@ -671,6 +691,14 @@ def _bind_lifetime(ctx, dataset_descs, lt):
                     probe('pickle_arrived_bound')
                     if cur is bound.get(h) or cur.dataset is not new:
                         fail('copy-independent', f'pickled copy of #{h} shares its convention with the original')
+                    was_ = bound.get(h)
+                    if was_ is not None:
+                        try:
+                            a_, b_ = sorted(map(str, was_.get_all_geometry_names())), sorted(map(str, cur.get_all_geometry_names()))
+                        except Exception:
+                            a_ = b_ = None
+                        if type(cur) is not type(was_) or a_ != b_:
+                            fail('copy-bound-differently', f'pickled copy of #{h} arrives bound to {type(cur).__name__} on {b_}, the original is bound to {type(was_).__name__} on {a_}')
                     bound[nh] = cur
                 elif cur is not None:
                     fail('copy-independent', f'{how} of dataset #{h} arrived already bound to {type(cur).__name__} (shared state)')
